@@ -95,11 +95,11 @@ MONITORS = {
 }
 
 
-def run_sim_case(spec, prop, extra_listeners=(), post=None):
+def run_sim_case(spec, prop, extra_listeners=(), post=None, **run_kwargs):
     """Runs one simulation spec with the monitors it names. Returns a result dict."""
     mons = {name: MONITORS[name](spec) for name in ["sanitizer"] + list(spec.get("monitors", []))}
     listeners = list(mons.values()) + list(extra_listeners)
-    rr = sim.run_sim(spec, listeners)
+    rr = sim.run_sim(spec, listeners, **run_kwargs)
     if rr.refused:
         return {"violations": [], "counters": {"refused_mesh": 1}, "classes": ["refused"], "nontrivial": False}
     V, C, W = [], {}, {}
